@@ -2,6 +2,9 @@
 # Runs every registered check (quick tier) on /repo's working tree and refreshes the evidence files.
 cd "$(dirname "$0")"
 ids=$(python3 -c "import json;print(' '.join(c['property_id'] for c in json.load(open('MANIFEST.json'))['checks']))")
+# the names of the locals that loop invariants refer to, as they are on this (unchanged) tree: lets a later check
+# recognise a local that was only renamed (govc/locals.go). Only ever run on the tree the contracts were written for.
+[ -z "${VERIF_REPO:-}" ] && bin/govc locals >/dev/null
 rc=0
 for id in $ids; do ./check $id ${1:-quick} 2>&1 | grep "^property\|^VIOLATION\|^KNOWN" || true; [ ${PIPESTATUS[0]} -eq 0 ] || rc=1; done
 exit $rc
